@@ -7,6 +7,7 @@
     answers held back); stimuli are applied between ticks, several at one instant only on devices
     with disjoint downstream cones.  Coq compares every device's (time, inputs) sequence between the
     reference and each delayed run (code 22) and both with Model/Sim.v."""
+import glob
 import json
 import random
 
@@ -14,7 +15,7 @@ import cbus
 import slevel
 import sprops
 import tprops
-from common import run_shards
+from common import VERIF, run_shards
 
 PID = "C08"
 T_END = 2_600_000_003
@@ -82,16 +83,26 @@ def describe(case):
                 stim=[list(s) for s in case["stim"]], schedules=[list(s) for s in case["schedules"]])
 
 
+def case_of(rp):
+    return dict(cfg={int(k): dict(order=[(c, kk) for c, kk in v["order"]], conns=[tuple(x) for x in v["conns"]]) for k, v in rp["cfg"].items()},
+                devs={int(k): tuple(v) for k, v in rp["devs"].items()}, stim=[tuple(s) for s in rp["stim"]],
+                schedules=[tuple(s) for s in rp["schedules"]])
+
+
 def net_part(ck, tier, rng):
     n, k = {"quick": (36, 5), "thorough": (400, 10)}[tier]
     cases, terms, groups = [], [], []
     nsim = 0
-    for i in range(n):
-        cfg = slevel.gen_config(rng, depth=rng.choice([0, 1, 2, 2, 3]), p_sys=0.6)
-        devs = slevel.gen_devs(rng, cfg)
-        stim, sim = gen_stim(rng, cfg)
-        nsim += sim
-        case = dict(cfg=cfg, devs=devs, stim=stim, schedules=[(rng.choice(POLICIES), rng.randrange(10 ** 6)) for _ in range(k)])
+    corpus = [case_of(json.load(open(f))) for f in sorted(glob.glob(str(VERIF / "corpus" / "C08" / "*.json")))]
+    for i in range(len(corpus) + n):
+        if i < len(corpus):
+            case = corpus[i]      # minimised regression cases run first
+        else:
+            cfg = slevel.gen_config(rng, depth=rng.choice([0, 1, 2, 2, 3]), p_sys=0.6)
+            devs = slevel.gen_devs(rng, cfg)
+            stim, sim = gen_stim(rng, cfg)
+            nsim += sim
+            case = dict(cfg=cfg, devs=devs, stim=stim, schedules=[(rng.choice(POLICIES), rng.randrange(10 ** 6)) for _ in range(k)])
         ref, delayed, term = run_group(case)
         cases.append(case)
         terms.append(term)
@@ -153,9 +164,7 @@ def main(tier, seed):
 def replay(rp):
     if rp.get("kind") != "net":
         return tprops.replay_T(rp)
-    case = dict(cfg={int(k): dict(order=[(c, kk) for c, kk in v["order"]], conns=[tuple(x) for x in v["conns"]]) for k, v in rp["cfg"].items()},
-                devs={int(k): tuple(v) for k, v in rp["devs"].items()}, stim=[tuple(s) for s in rp["stim"]],
-                schedules=[tuple(s) for s in rp["schedules"]])
+    case = case_of(rp)
     ref, delayed, term = run_group(case)
     bad = run_shards("replay", sprops.HEADER, "sched_case", "check_sched", [term])
     print("configuration:", case["cfg"], "stimuli:", case["stim"], "schedules:", case["schedules"])
